@@ -1,17 +1,18 @@
 PROP = {
     "go_test": "TestC18",
     "claimed": True,
-    "level_text": "PARTIAL. Proved (kernel-checked, 35 theorems closed under the global context): on the Gallina transcriptions of the InitGenesis/ExportGenesis pairs of ALL TEN custom modules - quarantine, sanction, name, attribute, msgfees, hold, trigger (Genesis/RoundTrip.v), exchange (params, markets with fee tables / flags / permissions / required attributes, orders incl. partially filled ones, commitments, payments, last ids), marker (marker accounts with access lists as auth accounts, registry, deny list, net asset values) and metadata (scopes with value owners in the bank, sessions, records, scope / contract / record specifications, object store locators, scope net asset values with heights) - and of their product in app.go's genesis order (exchange's hold check against the imported hold state), every well-formed store (strictly key-sorted, each record under the key its setter computes, validity as the keepers demand, secondary-index entries exactly the ones derived from the primary records) is rebuilt exactly from its own export - import (export s) = Some s, INCLUDING the secondary indexes that InitGenesis rebuilds through the setters (exchange market/owner/asset/external-id order indexes and target->payment index, marker registry, metadata address->scope, spec->scope, address->spec, contract-spec->scope-spec indexes): C18_*_indexes_rebuilt - hence the second export equals the first and the re-imported state accepts its own export; a generic theorem for index-maintaining import loops (C18_indexed_import_fresh) and one for the per-owner regrouping of net asset values (C18_regroup_flat); every history of raw store writes/deletes yields a key-sorted table and two histories with extensionally equal final stores export identically. Markers in EVERY status reached by EVERY route (Genesis/MarkerLifecycle.v: SetStatus, NewMarkerAccount, Validate, Finalize / Activate / Cancel / DeleteMarker): for every history of life-cycle calls by any callers an ACTIVE marker has no manager, a PROPOSED / FINALIZED one the manager it was created with, a CANCELLED / DESTROYED one either (both reached), and the genesis round trip keeps status, MANAGER and access list of every account, hence DeleteMarker's decision about every caller (C18_marker_manager_by_status, C18_marker_roundtrip_keeps_manager); an export through the constructor NewMarkerAccount would lose the manager of a marker cancelled before activation (C18_marker_constructor_export_drops_manager) while agreeing on all usual flows. Names under parameter changes (Genesis/NameParams.v): every history of bindings and of parameter changes that only LOOSEN the limits leaves a store its own export rebuilds (C18_name_roundtrip_under_loosening). Translator obligation C18_store_prefixes_reviewed: the 58 store prefixes the ten modules declare, and whether ExportGenesis / InitGenesis reach them, regenerated from the source on every run (translate/genprefix), equal the reviewed table (39 carried by the genesis, 17 rebuilt by InitGenesis from the exported records, 2 legacy prefixes nothing writes). What the shadow-node comparison decides, as a model (Genesis/ProcessHistory.v): a node whose block execution is oblivious of process memory gives the same results and state under any side traffic and any restarts (C18_oblivious_node_replay_independent); the cached-regex shape is separated by a two-block schedule. REFUTED with witnesses: tightening the name params by governance under an existing name leaves a reachable state whose export InitGenesis rejects (C18_name_params_tightened_export_rejected_refuted, reproduced on the real application, findings/C18.md finding 4); a quarantine record with accepted and unaccepted senders (reached from a valid genesis holding a two-sender record by ONE MsgAccept: C18_quarantine_accepted_senders_reachable_refuted) is exported without its accepted senders, comes back under another key, and the same later messages release the funds on the imported chain but not on the exporting chain - reproduced on the real application (findings/C18.md). Validated on the real application on every run (NOT proved): cross-module block histories of signed transactions are exported, a fresh App is initialised from the export, and compared for two generations are the exported genesis of all ten custom modules, ~270 module queries, the RAW key/value content of every custom module store, and the raw secondary-index entries of the exchange / marker / metadata stores; the observed genesis of all ten modules and perturbed genesis files (reordered, duplicated, zero/expired/unspecified/unsanctionable entries; duplicate orders / payments / scopes with other owners / specifications with fewer owners, external-id clashes, too small last order id, market id 0, dropped markers, zero NAV volume) are evaluated against the models inside Coq, index tables byte for byte. The exporting and the imported chain then CONTINUE with the same blocks of signed transactions (among them MsgDelete by the manager of every cancelled marker) and must produce the same results and events; the exported marker records are compared field by field with the STORED accounts; the stored bytes of the marker accounts (auth store) are compared before / after import; the first key bytes present in every module store must be declared prefixes; the observed life-cycle operations are evaluated against the model. Determinism across runs (same process and a separate process) and restart safety (goleveldb, closed and reopened at random block boundaries, and - shadow node - after EVERY block) are VALIDATED ONLY: the chain a history is generated on is a PRIMARY node that receives heavy side traffic no replay sees (Simulate + CheckTx of every transaction, CheckTx(Recheck) between FinalizeBlock and Commit, ghost transactions that are never included, parameter probes, ~25 gRPC queries per phase incl. the dry-run endpoints CalculateTxFees / tx Simulate / exchange Validate* and *FeeCalc), the histories carry governance parameter changes (marker denom regex / max supply, message fees, name, attribute, exchange, sanction, auth gas params; a quarter with a later failing message) and transactions whose outcome depends on them, on two further history shapes (cross-module; fee-heavy with 16 extra accounts, 4-5 fee-bearing messages per transaction and at least three distinct fee recipients paid in every block, 20 % of them failing after the ante handler), by comparing app hash, tx results and events of every block; a Gallina function is deterministic by construction, so no theorem can speak about Go map order, scheduling or crash points. Every `for range <map>` in the anchored files and the custom modules is extracted from the source on each run and compared with a reviewed allow-list.",
+    "level_text": "PARTIAL. Proved (kernel-checked, 36 theorems closed under the global context): on the Gallina transcriptions of the InitGenesis/ExportGenesis pairs of ALL TEN custom modules - quarantine, sanction, name, attribute, msgfees, hold, trigger (Genesis/RoundTrip.v), exchange (params, markets with fee tables / flags / permissions / required attributes, orders incl. partially filled ones, commitments, payments, last ids), marker (marker accounts with access lists as auth accounts, registry, deny list, net asset values) and metadata (scopes with value owners in the bank, sessions, records, scope / contract / record specifications, object store locators, scope net asset values with heights) - and of their product in app.go's genesis order (exchange's hold check against the imported hold state), every well-formed store (strictly key-sorted, each record under the key its setter computes, validity as the keepers demand, secondary-index entries exactly the ones derived from the primary records) is rebuilt exactly from its own export - import (export s) = Some s, INCLUDING the secondary indexes that InitGenesis rebuilds through the setters (exchange market/owner/asset/external-id order indexes and target->payment index, marker registry, metadata address->scope, spec->scope, address->spec, contract-spec->scope-spec indexes): C18_*_indexes_rebuilt - hence the second export equals the first and the re-imported state accepts its own export; a generic theorem for index-maintaining import loops (C18_indexed_import_fresh) and one for the per-owner regrouping of net asset values (C18_regroup_flat); every history of raw store writes/deletes yields a key-sorted table and two histories with extensionally equal final stores export identically. Markers in EVERY status reached by EVERY route (Genesis/MarkerLifecycle.v: SetStatus, NewMarkerAccount, Validate, Finalize / Activate / Cancel / DeleteMarker): for every history of life-cycle calls by any callers an ACTIVE marker has no manager, a PROPOSED / FINALIZED one the manager it was created with, a CANCELLED / DESTROYED one either (both reached), and the genesis round trip keeps status, MANAGER and access list of every account, hence DeleteMarker's decision about every caller (C18_marker_manager_by_status, C18_marker_roundtrip_keeps_manager); an export through the constructor NewMarkerAccount would lose the manager of a marker cancelled before activation (C18_marker_constructor_export_drops_manager) while agreeing on all usual flows. Names under parameter changes (Genesis/NameParams.v): every history of bindings and of parameter changes that only LOOSEN the limits leaves a store its own export rebuilds (C18_name_roundtrip_under_loosening). References to DELETED objects of another module (Genesis/DanglingRefs.v): no InitGenesis of the product reads the marker module's state, so whatever becomes of it - markers cancelled, deleted and purged whose denom still prices scope / marker net asset values, orders, trigger actions, or whose account still carries attributes, owns names, is a payment target or has data access to a scope - the whole export is accepted and rebuilds every module (C18_dangling_marker_references_survive). Translator obligation C18_store_prefixes_reviewed: the 58 store prefixes the ten modules declare, and whether ExportGenesis / InitGenesis reach them, regenerated from the source on every run (translate/genprefix), equal the reviewed table (39 carried by the genesis, 17 rebuilt by InitGenesis from the exported records, 2 legacy prefixes nothing writes). What the shadow-node comparison decides, as a model (Genesis/ProcessHistory.v): a node whose block execution is oblivious of process memory gives the same results and state under any side traffic and any restarts (C18_oblivious_node_replay_independent); the cached-regex shape is separated by a two-block schedule. REFUTED with witnesses: tightening the name params by governance under an existing name leaves a reachable state whose export InitGenesis rejects (C18_name_params_tightened_export_rejected_refuted, reproduced on the real application, findings/C18.md finding 4); a quarantine record with accepted and unaccepted senders (reached from a valid genesis holding a two-sender record by ONE MsgAccept: C18_quarantine_accepted_senders_reachable_refuted) is exported without its accepted senders, comes back under another key, and the same later messages release the funds on the imported chain but not on the exporting chain - reproduced on the real application (findings/C18.md). Validated on the real application on every run (NOT proved): cross-module block histories of signed transactions are exported, a fresh App is initialised from the export, and compared for two generations are the exported genesis of all ten custom modules, ~270 module queries, the RAW key/value content of every custom module store, and the raw secondary-index entries of the exchange / marker / metadata stores; the observed genesis of all ten modules and perturbed genesis files (reordered, duplicated, zero/expired/unspecified/unsanctionable entries; duplicate orders / payments / scopes with other owners / specifications with fewer owners, external-id clashes, too small last order id, market id 0, dropped markers, zero NAV volume) are evaluated against the models inside Coq, index tables byte for byte. The exporting and the imported chain then CONTINUE with the same blocks of signed transactions (among them MsgDelete by the manager of every cancelled marker) and must produce the same results and events; the exported marker records are compared field by field with the STORED accounts; the stored bytes of the marker accounts (auth store) are compared before / after import; the first key bytes present in every module store must be declared prefixes; the observed life-cycle operations are evaluated against the model. Determinism across runs (same process and a separate process) and restart safety (goleveldb, closed and reopened at random block boundaries, and - shadow node - after EVERY block) are VALIDATED ONLY: the chain a history is generated on is a PRIMARY node that receives heavy side traffic no replay sees (Simulate + CheckTx of every transaction, CheckTx(Recheck) between FinalizeBlock and Commit, ghost transactions that are never included, parameter probes, ~25 gRPC queries per phase incl. the dry-run endpoints CalculateTxFees / tx Simulate / exchange Validate* and *FeeCalc), the histories carry governance parameter changes (marker denom regex / max supply, message fees, name, attribute, exchange, sanction, auth gas params; a quarter with a later failing message) and transactions whose outcome depends on them, on two further history shapes (cross-module; fee-heavy with 16 extra accounts, 4-5 fee-bearing messages per transaction and at least three distinct fee recipients paid in every block, 20 % of them failing after the ante handler), by comparing app hash, tx results and events of every block; a Gallina function is deterministic by construction, so no theorem can speak about Go map order, scheduling or crash points. Every `for range <map>` in the anchored files and the custom modules is extracted from the source on each run and compared with a reviewed allow-list.",
     "level_note": "PARTIAL claim: export/import proved on models of all ten custom modules + validated on the real app; determinism and restart validated only (sampled histories, 3+1 quick / 10+1 thorough per seed; primary node with side traffic against replays and a shadow node re-opened after every block). The life-cycle model assumes that none of a life-cycle marker's coins circulates and that its supply is within MaxSupply (the generator keeps it so); the name-parameter model covers the length / level limits only (names already normalised, no UUID segments); translate/genprefix follows calls by NAME inside a module's own packages (an over-approximation: 'not reached' is certain, 'reached' is not). Trusted: Coq kernel + vm_compute; the hand transcriptions Genesis/*.v (tied to the code only by the correspondence run); hash-built store keys (name, attribute, msg fee, record address), stateless validators and bank balances enter the models as tables filled from the real functions; opaque bodies (market details, session / record / specification content, params) are compared by SHA-256 of their protobuf encoding; the auth and bank modules' own genesis round trip is the SDK's (the marker accounts travel through the auth genesis as BaseAccounts, the scope coins through the bank genesis); secondary indexes of the seven RoundTrip.v modules are not modelled (query + raw-store comparison only); the attribute store comparison leaves out the name->address counters (known finding, compared through the query) and the expiration queue (stale entries are inert); the map-range extractor translate/maprange is syntactic (no type checker) and its path flags are name-based; restart = clean close/reopen at block boundaries, not a crash in the middle of a commit. No axioms.",
     "technique": "Coq proof (marker life-cycle invariant over all histories, name stores under loosening parameter changes, oblivious-node replay theorem, generated-vs-reviewed store-prefix table, generic sorted-table round trip, generic index-maintaining import loop, per-module instances, product in genesis order, induction over write histories) of Gallina models + differential correspondence evaluated in Coq (genesis values and raw index entries) + replay/restart/export-import/raw-store validation on the real ABCI application + source scan of map ranges",
     "coq_files": ["Genesis/RoundTrip.v", "Genesis/Indexed.v", "Genesis/ExchangeGenesis.v", "Genesis/MarkerGenesis.v", "Genesis/MetadataGenesis.v",
                   "Genesis/FullProduct.v", "Genesis/QuarantineAccept.v", "Genesis/MarkerLifecycle.v", "Genesis/NameParams.v", "Genesis/ProcessHistory.v",
                   "Proofs/MarkerLifecycleProofs.v", "Proofs/NameParamsProofs.v", "Proofs/ProcessHistoryProofs.v",
                   "Gen/GenStorePrefixes.v", "Genesis/StorePrefixDoc.v", "Proofs/StorePrefixProofs.v",
+                  "Genesis/DanglingRefs.v", "Proofs/DanglingRefsProofs.v",
                   "Proofs/RoundTripProofs.v", "Proofs/TableLemmas.v", "Proofs/ExchangeGenesisProofs.v", "Proofs/MarkerGenesisProofs.v",
                   "Proofs/MetadataGenesisProofs.v", "Proofs/FullProductProofs.v", "Proofs/QuarantineAcceptProofs.v", "Proofs/FullWitness.v",
                   "Corr/CorrBase.v", "Corr/C18Gen.v", "Corr/C18.v"],
-    "rule": "a case is one of: round trip of a history's final state (and of the re-imported chain one block later) for the seven RoundTrip.v modules and, separately, for exchange / marker / metadata with their raw index entries; a perturbed genesis through the real InitChain (two families); per-module canonical-JSON equality for the ten custom modules; per-module raw store equality; the list of differing module queries; acceptance of the export by a fresh chain (two generations); per-block digests of a rerun / separate-process run / restarted run; a scripted scenario (fee shape: >= 3 recipients per block; quarantine multi-sender record once listed). Histories: 28-52 blocks of 2-8 signed transactions drawn from ~35 transaction kinds over all custom modules (about 10 % deliberately invalid), plus one fee-heavy history of 10 (30) blocks with 6-10 four-message transactions each; one life-cycle marker (its stored record and every finalize / activate / cancel / delete asked of it, with the outcome); per module the first key bytes of its store; the blocks both chains run after the import; a governance-tightens-a-parameter scenario per family (8 families). History 0 of a run is dense in governance parameter changes and dependent transactions and is replayed on a shadow node re-opened after every block. Non-trivial = a round trip whose export holds orders, holds, attributes, quarantine records and triggers, or a perturbation class x accept/reject outcome, or a scenario; distinct = distinct history labels / perturbation classes",
+    "rule": "a case is one of: round trip of a history's final state (and of the re-imported chain one block later) for the seven RoundTrip.v modules and, separately, for exchange / marker / metadata with their raw index entries; a perturbed genesis through the real InitChain (two families); per-module canonical-JSON equality for the ten custom modules; per-module raw store equality; the list of differing module queries; acceptance of the export by a fresh chain (two generations); per-block digests of a rerun / separate-process run / restarted run; a scripted scenario (fee shape: >= 3 recipients per block; quarantine multi-sender record once listed). Histories: 28-52 blocks of 2-8 signed transactions drawn from ~35 transaction kinds over all custom modules (about 10 % deliberately invalid), plus one fee-heavy history of 10 (30) blocks with 6-10 four-message transactions each; one life-cycle marker (its stored record and every finalize / activate / cancel / delete asked of it, with the outcome); per module the first key bytes of its store; the blocks both chains run after the import; a governance-tightens-a-parameter scenario per family (8 families). Every block of a history carries one life-cycle transaction and one transaction that makes another module refer to a life-cycle marker (nine kinds of reference, by denom and by account address) or a scope; markers on a deleting route are cancelled, deleted and purged only after all nine, so that every export holds dangling references of every kind (counted: exported_dangling_*); a burst of triggers falls due in the last block (non-empty queue with an advanced start index at export). One scripted governance history (marker regex, a rolled-back message-fee change, a rolled-back name-params change, attribute max length, then the transactions that depend on them) is replayed without side traffic and on a shadow node re-opened after every block. History 0 of a run is dense in governance parameter changes and dependent transactions and is replayed on a shadow node re-opened after every block. Non-trivial = a round trip whose export holds orders, holds, attributes, quarantine records and triggers, or a perturbation class x accept/reject outcome, or a scenario; distinct = distinct history labels / perturbation classes",
     "assumptions": ["VALIDATION ONLY (not proof): process-history independence - the primary node (side traffic: Simulate, CheckTx, Recheck between FinalizeBlock and Commit, never-included ghost transactions, queries incl. dry-run endpoints) against a shadow node fed the same blocks only and re-opened after every block: app hash, tx results and events of every block (tag prop:state_depends_on_process_history); the theorem about oblivious nodes says why this is the right comparison, it says nothing about the Go node",
                     "VALIDATION ONLY (not proof): determinism - the same recorded blocks replayed on a second App in the same process and on a third in a separate process give the same app hash, tx results (code, codespace, data, gas, log) and events for every block; evaluated in Coq merely as equality of the recorded digests (tags prop:determinism_digests_differ:*)",
                     "VALIDATION ONLY (not proof): restart - the same blocks on a goleveldb-backed App closed and reopened after ~35 % of the blocks give the same digests (tag prop:restart_digests_differ); a crash during Commit is not exercised",
